@@ -7,7 +7,9 @@ import (
 	stdxml "encoding/xml"
 	"fmt"
 	"io"
+	"regexp"
 	"strings"
+	"unicode/utf8"
 
 	"verifmc/engine"
 
@@ -251,8 +253,160 @@ func c11VsEncodingXML(c *engine.Ctx, in []byte, got []xTok) {
 	}
 }
 
+var pseudoAttrs = regexp.MustCompile(`^(\s*[A-Za-z_:][-A-Za-z0-9_:.]*\s*=\s*("[^"<]*"|'[^'<]*'))*\s*$`)
+
+// c11Strict: whatever encoding/xml accepts in strict mode as a complete sequence of well-formed constructs must lex to
+// the same events (element names, attributes with normalised values, text and CDATA content, comments, PI targets,
+// directives). Returns a description of the first difference.
+func c11Strict(src []byte) string {
+	if bytes.IndexByte(src, 0) >= 0 || !utf8.Valid(src) {
+		return ""
+	}
+	amp := bytes.IndexByte(src, '&') >= 0
+	var want []string
+	text := func(list *[]string, s string) {
+		if s == "" {
+			return
+		}
+		if amp {
+			s = "&"
+		}
+		if n := len(*list); n > 0 && strings.HasPrefix((*list)[n-1], "text:") {
+			if amp {
+				return
+			}
+			(*list)[n-1] += s
+			return
+		}
+		*list = append(*list, "text:"+s)
+	}
+	qn := func(n stdxml.Name) string {
+		if n.Space != "" {
+			return n.Space + ":" + n.Local
+		}
+		return n.Local
+	}
+	d := stdxml.NewDecoder(bytes.NewReader(src))
+	for {
+		off0 := int(d.InputOffset())
+		t, err := d.RawToken()
+		if err != nil {
+			if err != io.EOF {
+				return ""
+			}
+			break
+		}
+		switch e := t.(type) {
+		case stdxml.StartElement:
+			want = append(want, "start:"+qn(e.Name))
+			for _, a := range e.Attr {
+				v := xmlNorm(a.Value)
+				if amp {
+					v = "&"
+				}
+				want = append(want, "attr:"+qn(a.Name)+"="+v)
+			}
+		case stdxml.EndElement:
+			want = append(want, "end:"+qn(e.Name))
+		case stdxml.CharData:
+			text(&want, strings.ReplaceAll(strings.ReplaceAll(string(e), "\r\n", "\n"), "\r", "\n"))
+		case stdxml.Comment:
+			want = append(want, "comment:"+string(e))
+		case stdxml.ProcInst:
+			// well-formed only if the target is followed by whitespace or the closing "?>"
+			rest := src[off0:]
+			if !bytes.HasPrefix(rest, []byte("<?"+e.Target)) {
+				return ""
+			}
+			rest = rest[2+len(e.Target):]
+			if !(bytes.HasPrefix(rest, []byte("?>")) || len(rest) > 0 && (rest[0] == ' ' || rest[0] == '\t' || rest[0] == '\n' || rest[0] == '\r')) {
+				return ""
+			}
+			// the lexer models a processing instruction as a tag with pseudo-attributes (the subset the property
+			// names); free-form instruction data is outside it
+			if !pseudoAttrs.Match(e.Inst) {
+				return ""
+			}
+			want = append(want, "pi:"+e.Target)
+		case stdxml.Directive:
+			// encoding/xml passes any <!...> through with its own bracket counting: no reference for directives
+			// (document type declarations are covered by the generated family)
+			return ""
+		}
+	}
+	got, err := xmlLexAll(src)
+	if err != io.EOF {
+		return fmt.Sprintf("encoding/xml accepts the input as %v, the lexer ends with %v", want, err)
+	}
+	var have []string
+	open := ""
+	inPI := false
+	for _, t := range got {
+		switch t.tt {
+		case xml.StartTagToken:
+			have = append(have, "start:"+t.text)
+			open = t.text
+		case xml.StartTagPIToken:
+			have = append(have, "pi:"+t.text)
+			inPI = true
+		case xml.StartTagClosePIToken:
+			inPI = false
+		case xml.AttributeToken:
+			if inPI {
+				continue
+			}
+			v := t.val
+			if len(v) >= 2 && (v[0] == '"' || v[0] == '\'') {
+				v = v[1 : len(v)-1]
+			}
+			if amp {
+				v = "&"
+			}
+			have = append(have, "attr:"+t.text+"="+v)
+		case xml.StartTagCloseVoidToken:
+			have = append(have, "end:"+open)
+		case xml.EndTagToken:
+			have = append(have, "end:"+t.text)
+		case xml.TextToken:
+			text(&have, strings.ReplaceAll(strings.ReplaceAll(t.data, "\r\n", "\n"), "\r", "\n"))
+		case xml.CDATAToken:
+			text(&have, strings.ReplaceAll(strings.ReplaceAll(t.text, "\r\n", "\n"), "\r", "\n"))
+		case xml.CommentToken:
+			have = append(have, "comment:"+t.text)
+		case xml.DOCTYPEToken:
+			have = append(have, "directive")
+		}
+	}
+	if bytes.Contains(src, []byte("\r\n")) {
+		// XML turns CR LF into one line feed before attribute-value normalisation; the lexer replaces byte for byte
+		// in place and cannot shorten the value: two spaces for one (recorded as a representation difference)
+		for _, l := range []*[]string{&have, &want} {
+			for i, e := range *l {
+				if strings.HasPrefix(e, "attr:") {
+					for strings.Contains(e, "  ") {
+						e = strings.ReplaceAll(e, "  ", " ")
+					}
+					(*l)[i] = e
+				}
+			}
+		}
+	}
+	if strings.Join(have, "\x00") != strings.Join(want, "\x00") {
+		return fmt.Sprintf("the lexer gives %q, encoding/xml (strict) gives %q", have, want)
+	}
+	return "ok"
+}
+
 // structural clauses on arbitrary bytes
 func c11Any(c *engine.Ctx, in []byte, args map[string]string) {
+	switch msg := c11Strict(in); msg {
+	case "":
+	case "ok":
+		c.Count("strict-xml-compared", 1)
+	default:
+		c.Fail("vs-encoding-xml-strict", fmt.Sprintf("input %q: %s", in, msg))
+		return
+	}
 	src := append([]byte{}, in...)
 	buf := append(make([]byte, 0, len(src)+1), src...)
 	z := parse.NewInputBytes(buf)
